@@ -107,14 +107,20 @@ def showRec (t : Nat) (n : Name) : String := "t" ++ toString t ++ ":" ++ Drv.hex
 
 def commaOr (xs : List String) : String := if xs.isEmpty then "-" else ",".intercalate xs
 
-/-- drain the ReadDir mirror, recording the getdents return values it sees -/
-partial def drain (s : ReadDir) (calls : List String) (ys : List (Nat × Name)) : String × List String × List (Nat × Name) :=
+def showItemErr : E → String
+  | .os n => "-" ++ toString n
+  | e => showE e
+
+/-- drain the ReadDir mirror up to its first `None` / `Err` / panic, recording the getdents64 return values it sees:
+(how it ended, calls, yields, state afterwards) -/
+partial def drain (s : ReadDir) (calls : List String) (ys : List (Nat × Name)) :
+    String × List String × List (Nat × Name) × ReadDir :=
   let willCall := s.readSize == s.offset && !s.eod
   let (s', it) := s.next
   match it with
-  | .done => ("ok", if willCall then calls ++ ["0"] else calls, ys)
-  | .err e => ("err " ++ showE e, calls, ys)
-  | .panic => ("panic", calls, ys)
+  | .done => ("ok", if willCall then calls ++ ["0"] else calls, ys, s')
+  | .err e => ("err " ++ showE e, if willCall then calls ++ [showItemErr e] else calls, ys, s')
+  | .panic => ("panic", calls, ys, s')
   | .entry t n =>
     let calls' := if willCall then calls ++ [toString s'.readSize] else calls
     drain s' calls' (ys ++ [(t, n)])
@@ -125,21 +131,60 @@ def sameRecSet (a b : List Rec) : Bool :=
   let sb := (b.map key).mergeSort leBytes
   sa == sb
 
-def opReaddir (st : FS) (p : Bytes) (recs : List Rec) : String :=
+def showYields (recs : List Rec) (calls : List String) (ys : List (Nat × Name)) : String :=
+  s!"recs={commaOr (recs.map (fun r => showRec r.dtype r.name))} reclens={commaOr (recs.map (fun r => toString (reclen r)))} calls={commaOr calls} yields={commaOr (ys.map (fun y => showRec y.1 y.2))} rel={if ys.isEmpty then "-" else String.join (ys.map (fun y => if isRelRef y.2 then "1" else "0"))}"
+
+/-- open the directory the way `Directory::open` does and hand its records to `k` -/
+def withDir (st : FS) (p : Bytes) (recs : List Rec) (k : Unit → String) : String :=
   match openat st p (O_CLOEXEC ||| O_RDONLY) with
   | (_, .error .unmodelled) => "unmodelled"
   | (_, .error e) => "err " ++ showE e
   | (st0, .ok h) =>
     match getAt st0.root h.loc with
-    | some (.dir es) =>
-      if !sameRecSet (dirRecs es) recs then "model-dir-mismatch"
-      else
-        let (res, calls, ys) := drain (ReadDir.new recs) [] []
-        if res != "ok" then res
-        else
-          s!"ok recs={commaOr (recs.map (fun r => showRec r.dtype r.name))} reclens={commaOr (recs.map (fun r => toString (reclen r)))} calls={commaOr calls} yields={commaOr (ys.map (fun y => showRec y.1 y.2))} rel={String.join (ys.map (fun y => if isRelRef y.2 then "1" else "0"))}"
+    | some (.dir es) => if !sameRecSet (dirRecs es) recs then "model-dir-mismatch" else k ()
     | some _ => "err 20"
     | none => "unmodelled"
+
+/-- the kernel's own split of the stream -/
+def opReaddir (st : FS) (p : Bytes) (recs : List Rec) : String :=
+  withDir st p recs fun _ =>
+    let (res, calls, ys, _) := drain (ReadDir.new (kernelDents 512 recs.length recs)) [] []
+    if res != "ok" then res else "ok " ++ showYields recs calls ys
+
+/-- split script `g<item>,<item>,…`: `<n>` = the next n records in one answer, `z` = the answer 0, `e<errno>` -/
+def parseSplit (s : String) (recs : List Rec) : Option (List Dents) :=
+  if !s.startsWith "g" then none
+  else
+    let body := (s.drop 1).toString
+    if body == "" then some []
+    else
+      let rec go : List String → List Rec → Option (List Dents)
+        | [], _ => some []
+        | x :: xs, left =>
+          if x == "z" then (go xs left).map (Dents.eod :: ·)
+          else if x.startsWith "e" then
+            match (x.drop 1).toString.toNat? with
+            | some e => if e ≥ 1 ∧ e ≤ 4095 then (go xs left).map (Dents.err e :: ·) else none
+            | none => none
+          else match x.toNat? with
+            | some n => (go xs (left.drop n)).map (Dents.recs (left.take n) :: ·)
+            | none => none
+      go (body.splitOn ",") recs
+
+def showItem : Item → String
+  | .done => "d"
+  | .err e => "e" ++ showE e
+  | .panic => "p"
+  | .entry _ _ => "y"
+
+/-- the iterator over a scripted split; after its first `None`/`Err` three more `next` calls -/
+def opReaddirSplit (st : FS) (p : Bytes) (recs : List Rec) (answers : List Dents) : String :=
+  withDir st p recs fun _ =>
+    let (res, calls, ys, s') := drain (ReadDir.new answers) [] []
+    if res == "panic" then res
+    else
+      let fin := if res == "ok" then "done" else res.replace " " ":"
+      "ok " ++ showYields recs calls ys ++ " end=" ++ fin ++ " more=" ++ ",".intercalate ((s'.run 3).map showItem)
 
 def parseOpts (s : String) : Option Opts :=
   match s.toList.map (fun c => c == '1') with
@@ -219,6 +264,13 @@ def step (s : Option FS) (line : String) : Option FS × String :=
   | ["readdir", p, recs], some st =>
     match Drv.unhex p, parseRecs recs with
     | some p, some recs => (s, withDump st (opReaddir st p recs))
+    | _, _ => (s, "bad-op")
+  | ["readdirs", p, recs, split], some st =>
+    match Drv.unhex p, parseRecs recs with
+    | some p, some recs =>
+      match parseSplit split recs with
+      | some answers => (s, withDump st (opReaddirSplit st p recs answers))
+      | none => (s, "bad-op")
     | _, _ => (s, "bad-op")
   | ["opts", bits], _ =>
     match parseOpts bits with
